@@ -1,4 +1,5 @@
 """C20 — solve_order decouples the earlier variable's distribution from the later one."""
+import json
 import math
 import random
 
@@ -198,6 +199,53 @@ def run(ctx):
                 core.add_violation(ctx, "with solve_order the first-solved field %s is not uniform over its feasible values: counts %s "
                                         "(expected %.1f each, 6.1 sigma = %.1f)" % (n, sorted(c.items()), N * p, 6.1 * sigma),
                                    {"scenario": sc["classes"], "observed": {"counts": sorted(c.items()), "calls": N}})
+    # ordering tie: Rand/Order.v's rand_order evaluated in Coq on the dependency map and the fields of every rand set the code
+    # formed, against the groups the code derived (rs.rand_order_l); distinct (map, rand set) pairs only
+    order_cases = {}
+    for sc, o in zip(scs, obs):
+        if o.get("_crash") or "crash" in o:
+            continue
+        for op, r in zip(sc["ops"], o["ops"]):
+            if op["op"] != "randomize":
+                continue
+            for rec in r.get("orders", []):
+                if "error" in rec:
+                    ctx.tie_broken.append("ordering of the rand sets could not be observed: %s" % rec["error"][:200])
+                    continue
+                for flds, groups in rec["sets"]:
+                    if any(x < 0 for x in flds) or any(a < 0 or any(b < 0 for b in bs) for a, bs in rec["deps"]):
+                        continue        # a field the harness does not number
+                    key = json.dumps([rec["deps"], flds, groups])
+                    order_cases.setdefault(key, sc["template"])
+    n_order = 0
+    if order_cases:
+        keys = sorted(order_cases)
+        nl = lambda l: core.clist(["%d%%nat" % x for x in l])
+        rows = []
+        for k in keys:
+            deps, flds, groups = json.loads(k)
+            d = core.clist(["(%d%%nat, %s)" % (a, nl(bs)) for a, bs in deps])
+            g = "None" if groups is None else "(Some %s)" % core.clist([nl(x) for x in groups])
+            rows.append("(%s, %s, %s)" % (d, nl(flds), g))
+        text = ("From Coq Require Import ZArith List Bool Arith.\nFrom PV Require Import Rand.Order.\nImport ListNotations.\n"
+                "Fixpoint leqb (a b : list nat) : bool := match a, b with [], [] => true | x :: a', y :: b' => Nat.eqb x y && leqb a' b' | _, _ => false end.\n"
+                "Fixpoint lleqb (a b : list (list nat)) : bool := match a, b with [], [] => true | x :: a', y :: b' => leqb x y && lleqb a' b' | _, _ => false end.\n"
+                "Definition oeqb (a b : option (list (list nat))) : bool := match a, b with Some x, Some y => lleqb x y "
+                "| None, None => true | _, _ => false end.\n"
+                "Definition cases : list (deps * list nat * option (list (list nat))) := %s.\n"
+                "Eval vm_compute in map (fun c => match c with (d, f, r) => if oeqb (rand_order d f) r then 0%%Z else 1%%Z end) cases.\n"
+                % core.clist(rows))
+        res = core.parse_z_list(core.coq_eval(ctx, "c20_order", text))
+        if res is None or len(res) != len(keys):
+            ctx.tie_broken.append("Coq evaluation of the ordering cases failed")
+        else:
+            n_order = len(keys)
+            evals += n_order
+            for k, bad in zip(keys, res):
+                if bad:
+                    deps, flds, groups = json.loads(k)
+                    ctx.tie_broken.append("Rand/Order.v rand_order != rs.rand_order_l (template %s): deps %s fields %s code %s"
+                                          % (order_cases[k], deps, flds, groups))
     # constraints still hold / satisfiability unchanged: the C01/C02 oracle on the first calls of every template
     short = [dict(s, ops=s["ops"][:9]) for s in scs[:len(templates(random.Random(0)))]
              if all(f["kind"] == "scalar" for f in s["classes"][0]["fields"])]      # (lists: C04's oracle)
@@ -223,6 +271,7 @@ def run(ctx):
         "samples": [{"template": s["template"], "stmts": s["classes"][0]["blocks"][0]["stmts"]} for s in scs[:2]],
         "exhaustive": False,
         "histograms": hist_out[:20],
+        "ordering_tie_cases": n_order,
         "correspondence_mismatches": len(ctx.tie_broken),
     })
     ctx.assumptions += [
